@@ -30,7 +30,9 @@ Fixpoint scan_trace (ll : list lookup) (gd : option gdef) (budget : nat) (lk : l
   | S f =>
     if r =? 0 then [] else
     match step ll gd budget lk (length seq - r) seq with
-    | (seq', next, _) => r :: scan_trace ll gd budget lk f (length seq' - next) seq'
+    | (seq', next, _) =>
+      r :: (if size_cap <? length seq' then []
+            else scan_trace ll gd budget lk f (length seq' - next) seq')
     end
   end.
 
@@ -55,25 +57,6 @@ Definition effect_wf (kp : N -> bool) (seq : list glyph) (a : nat) (e : effect) 
     exists preds b qs, ms = a :: qs /\ match_seq kp preds (slice seq (S a) b) (S a) = Some qs
   end.
 
-(* finite check used by merge_tracks_upto9 (Proofs.v): behind a merge the
-   renumbering q -> q - #(removed before q) follows the glyphs *)
-Fixpoint subsets (l : list nat) : list (list nat) :=
-  match l with
-  | [] => [[]]
-  | x :: l' => let r := subsets l' in r ++ map (cons x) r
-  end.
-
-Definition merge_tracks_check (n : nat) : bool :=
-  forallb (fun m0 =>
-    forallb (fun rest =>
-      let l := seq 0 n in
-      let l' := firstn m0 l ++ m0 :: drop_at (skipn (S m0) l) (S m0) rest in
-      forallb (fun q =>
-        if memnat q rest then true
-        else match nth_error l' (q - count_lt rest q) with
-             | Some x => x =? q
-             | None => false
-             end) (seq (S m0) (n - S m0)))
-      (subsets (seq (S m0) (n - S m0))))
-    (seq 0 n).
-
+(* number of removed positions in [p, p+j) (used in Proofs_merge.v) *)
+Definition cnt (rest : list nat) (p j : nat) : nat :=
+  length (filter (fun r => (p <=? r) && (r <? p + j)) rest).
